@@ -504,4 +504,674 @@ Section GovProofs.
     induction fuel as [|k IH]; intros st i ns reason p st' Hg Ho Hc H; simpl in H; [discriminate|].
     eapply conclude_body_ext; eauto.
   Qed.
+
+  (** ** Operation level: ballots may grow by the one vote of the transaction *)
+
+  Definition final_same (p q : proposal) : Prop :=
+    p_status q = p_status p /\ p_reason q = p_reason p /\ p_ballots q = p_ballots p /\
+    p_approve q = p_approve p /\ p_reject q = p_reject p /\ p_super q = p_super p /\
+    p_manage q = p_manage p /\ p_cavail q = p_cavail p.
+
+  Record pevb (p q : proposal) : Prop := {
+    pb_hdr : p_hdr q = p_hdr p;
+    pb_closed : is_open p = false -> final_same p q;
+    pb_ballots : exists l, p_ballots q = l ++ p_ballots p /\ (List.length l <= 1)%nat }.
+
+  Lemma pev_pevb p q : pev p q -> pevb p q.
+  Proof.
+    intros [a b c d e f]. constructor; [exact a | | exists []; split; [exact b | simpl; lia]].
+    intro Ho. destruct (f Ho) as [f1 [f2 [f3 f4]]]. unfold final_same. repeat split; assumption.
+  Qed.
+
+  Definition sevb (st st' : state) : Prop :=
+    (List.length (s_props st) <= List.length (s_props st'))%nat /\
+    forall i p, get_prop st i = Some p -> exists q, get_prop st' i = Some q /\ pevb p q.
+
+  Lemma sev_sevb st st' : sev st st' -> sevb st st'.
+  Proof.
+    intros [L H]. split; [exact L|]. intros i p Hp. destruct (H i p Hp) as [q [Hq Hpq]].
+    exists q. split; [exact Hq | apply pev_pevb; exact Hpq].
+  Qed.
+
+  Lemma sevb_refl st : sevb st st.
+  Proof. apply sev_sevb. apply sev_refl. Qed.
+
+  (** ** submit *)
+
+  Lemma nodup_keys_electorate (st : state) : nodup_keys (s_roles st) = true -> nodup_keys (electorate st) = true.
+  Proof.
+    unfold electorate. induction (s_roles st) as [|[k [s w]] t IH]; simpl; intro H; [reflexivity|].
+    apply andb_true_iff in H. destruct H as [H1 H2]. specialize (IH H2).
+    destruct (is_avail_status s); simpl; [|exact IH]. rewrite IH, andb_true_r.
+    apply negb_true_iff. apply negb_true_iff in H1. apply not_true_iff_false. intro Hc.
+    apply not_true_iff_false in H1. apply H1. clear -Hc.
+    induction t as [|[k2 [s2 w2]] t IH]; simpl in *; [discriminate|].
+    destruct (is_avail_status s2); simpl in Hc.
+    - apply orb_true_iff in Hc. destruct Hc as [Hc|Hc]; [rewrite Hc; reflexivity | rewrite IH by exact Hc; apply orb_true_r].
+    - rewrite IH by exact Hc. apply orb_true_r.
+  Qed.
+
+  Lemma ext_append (st st' : state) p :
+    s_props st' = s_props st ++ [p] -> s_roles st' = s_roles st -> pinv p -> ext st st'.
+  Proof.
+    intros Hp Hr Hi [HI Hn]. split.
+    - split; [|rewrite Hr; exact Hn]. rewrite Hp. apply Forall_app. split; [exact HI | constructor; [exact Hi | constructor]].
+    - split; [rewrite Hp, app_length; simpl; lia|]. intros i q Hq. exists q. split; [|apply pev_refl].
+      unfold get_prop in *. rewrite Hp. rewrite nth_error_app1; [exact Hq|]. apply nth_error_Some. congruence.
+  Qed.
+
+  Lemma find_lock_some (ps : list proposal) obj ev : forall k i,
+    find_lock ps k obj ev = Some i -> exists p, nth_error ps (i - k) = Some p /\ p_status p = ST_PROPOSED /\ (k <= i)%nat.
+  Proof.
+    induction ps as [|p t IH]; intros k i H; simpl in H; [discriminate|].
+    destruct ((h_obj (p_hdr p) =? obj) && (p_status p =? ST_PROPOSED) && (prio (h_ev (p_hdr p)) <? prio ev)) eqn:Ec.
+    - inversion H; subst. exists p. rewrite Nat.sub_diag. split; [reflexivity|]. split; [|lia].
+      apply andb_true_iff in Ec. destruct Ec as [Ec _]. apply andb_true_iff in Ec. destruct Ec as [_ Ec]. apply N.eqb_eq. exact Ec.
+    - apply IH in H. destruct H as [q [H1 [H2 H3]]]. exists q. split; [|split; [exact H2 | lia]].
+      replace (i - k)%nat with (S (i - S k)) by lia. simpl. exact H1.
+  Qed.
+
+  Lemma lock_low_ext (st : state) obj ev : ext st (fst (lock_low st obj ev)).
+  Proof.
+    unfold lock_low. destruct (find_lock (s_props st) 0 obj ev) as [i|] eqn:Ef; simpl; [|apply ext_refl].
+    apply find_lock_some in Ef. destruct Ef as [p [H1 [H2 _]]]. rewrite Nat.sub_0_r in H1.
+    eapply ext_pause; [exact H1 | unfold is_open; rewrite H2; reflexivity | unfold ST_PAUSED; lia].
+  Qed.
+
+  Lemma lock_low_roles (st : state) obj ev : s_roles (fst (lock_low st obj ev)) = s_roles st.
+  Proof.
+    unfold lock_low. destruct (find_lock (s_props st) 0 obj ev) as [i|]; simpl; [|reflexivity].
+    apply (proj2 (props_change_status st i ST_PAUSED)).
+  Qed.
+
+  Lemma submit_ext (st : state) from ev m obj last extra st' i :
+    submit sem e_default st from ev m obj last extra = Ok (st', i) ->
+    ext st st' /\
+    (sinv st -> exists p, get_prop st' i = Some p /\ p_status p = ST_PROPOSED /\ p_ballots p = [] /\
+                         h_zero (p_hdr p) = fst (strategy_info e_default st m)).
+  Proof.
+    unfold submit. destruct (strategy_info e_default st m) as [z e] eqn:Es.
+    destruct (if z then Some 0 else threshold (sem e) 0 0 (N.of_nat (List.length (electorate st)))) as [th|]; [|discriminate].
+    pose proof (lock_low_ext st obj ev) as E1. pose proof (lock_low_roles st obj ev) as R1.
+    destruct (lock_low st obj ev) as [st1 lock]. cbn [fst] in *.
+    intro H. inversion H; subst. clear H.
+    match goal with |- context[s_props st1 ++ [?pp]] => set (pnew := pp) end.
+    assert (forall s, sinv s -> s_roles s = s_roles st -> pinv pnew) as Hpi.
+    { intros s [_ Hn] Hr. rewrite Hr in Hn. constructor.
+      - unfold tally_ok, pnew. cbn [p_ballots p_hdr h_elect p_approve p_reject h_total nodup_keys forallb count_ballots filter List.length].
+        rewrite nodup_keys_electorate by exact Hn. rewrite !N.eqb_refl. reflexivity.
+      - reflexivity.
+      - reflexivity.
+      - reflexivity.
+      - intro Hx. discriminate.
+      - unfold pnew. cbn [p_status]. unfold ST_PROPOSED. lia. }
+    split.
+    - intro Hs. assert (sinv st1) as Hs1 by (apply E1; exact Hs).
+      destruct (E1 Hs) as [_ Sv].
+      assert (ext st1 (with_idx (with_props st1 (s_props st1 ++ [pnew])) (s_proposed st1 ++ [List.length (s_props st1)]) (s_paused st1))) as E2.
+      { apply (ext_append _ _ pnew); [reflexivity | reflexivity | apply (Hpi st1 Hs1 R1)]. }
+      destruct (E2 Hs1) as [Hs2 Sv2]. split; [exact Hs2 | eapply sev_trans; eauto].
+    - intros _. exists pnew. split; [|split; [reflexivity | split; [reflexivity | reflexivity]]].
+      unfold get_prop. cbn [s_props with_idx with_props]. rewrite nth_error_app2 by lia. rewrite Nat.sub_diag. reflexivity.
+  Qed.
+
+  (** ** The transactions *)
+
+  Definition opext (st st' : state) : Prop := sinv st -> sinv st' /\ sevb st st'.
+
+  Lemma ext_opext st st' : ext st st' -> opext st st'.
+  Proof. intros H Hs. destruct (H Hs) as [A B]. split; [exact A | apply sev_sevb; exact B]. Qed.
+
+  Lemma zero_perm_int_ext (st : state) i st' :
+    zero_perm sem e_default cfg_fixed st true i = Ok st' -> ext st st'.
+  Proof.
+    unfold zero_perm. cbn [negb andb d_zero_open cfg_fixed orb].
+    destruct (get_prop st i) as [p|] eqn:Hg; [|discriminate].
+    destruct (h_zero (p_hdr p) && (p_status p =? ST_PROPOSED)) eqn:Ec; [|intro H; inversion H; apply ext_refl].
+    apply andb_true_iff in Ec. destruct Ec as [_ Ec]. apply N.eqb_eq in Ec.
+    intro H. eapply (conclude_good _ st i ST_APPROVED RS_ZERO p st' Hg); [unfold is_open; rewrite Ec; reflexivity | | exact H].
+    split; [left; reflexivity|]. split; [right; left; reflexivity|].
+    unfold RS_ZERO, RS_NORMAL, RS_ELECTORATE. intros [Hx|Hx]; discriminate.
+  Qed.
+
+  Lemma zero_after_ext (st : state) i st' : zero_after sem e_default cfg_fixed st i = Ok st' -> ext st st'.
+  Proof.
+    unfold zero_after. destruct (zero_perm sem e_default cfg_fixed st true i) as [s|c] eqn:Ez; [|discriminate].
+    intro H; inversion H; subst. eapply zero_perm_int_ext; exact Ez.
+  Qed.
+
+  Lemma zero_perm_ext_fails (st : state) i : zero_perm sem e_default cfg_fixed st false i = Fail 1.
+  Proof. reflexivity. Qed.
+
+  Lemma withdraw_ext (st : state) c i st' : withdraw sem e_default cfg_fixed st c i = Ok st' -> ext st st'.
+  Proof.
+    unfold withdraw. destruct (get_prop st i) as [p|] eqn:Hg; [|discriminate].
+    destruct (negb (h_from (p_hdr p) =? c)); [discriminate|].
+    destruct (2 <=? p_status p) eqn:Ec; [discriminate|].
+    intro H. eapply (conclude_good _ st i ST_REJECTED RS_WITHDRAWN p st' Hg); [unfold is_open; lia | | exact H].
+    split; [right; reflexivity|]. split; [right; right; left; reflexivity|].
+    unfold RS_WITHDRAWN, RS_NORMAL, RS_ELECTORATE. intros [Hx|Hx]; discriminate.
+  Qed.
+
+  Lemma role_flow_ext (st : state) c x ev st' : role_flow sem e_default cfg_fixed st c x ev = Ok st' -> ext st st'.
+  Proof.
+    unfold role_flow.
+    destruct (seqb ev gov_ev_freeze && (x =? c)); [discriminate|].
+    destruct (negb (is_avail_admin st c || (seqb ev gov_ev_activate || seqb ev gov_ev_logout) && (x =? c))); [discriminate|].
+    destruct (role_of st x) as [[s w]|]; [|discriminate].
+    destruct (negb (pre_ok gov_role_pre ev s)); [discriminate|].
+    destruct (w =? gov_super_weight); [discriminate|].
+    destruct (submit sem e_default st c ev 0 x s None) as [[st1 i]|k] eqn:Es; [|discriminate].
+    destruct (fire gov_role_fsm s ev s) as [s'|]; [|discriminate].
+    apply submit_ext in Es. destruct Es as [E1 _].
+    pose proof (ext_set_role st1 x (s', w)) as E2. set (st2 := set_role st1 x (s', w)) in *.
+    destruct (seqb ev gov_ev_logout && is_avail_status s').
+    - destruct (cascade sem cfg_fixed (conclude sem e_default cfg_fixed (fuel_of st)) st2 x false) as [s3|k] eqn:Ec; [|discriminate].
+      intro H. eapply ext_trans; [exact E1|]. eapply ext_trans; [exact E2|].
+      eapply ext_trans; [eapply (cascade_ext _ (conclude_good _)); exact Ec|].
+      eapply ext_trans; [apply ext_usi | eapply zero_after_ext; exact H].
+    - intro H. eapply ext_trans; [exact E1|]. eapply ext_trans; [exact E2 | eapply zero_after_ext; exact H].
+  Qed.
+
+  Lemma reg_role_ext (st : state) c x st' : reg_role sem e_default cfg_fixed st c x = Ok st' -> ext st st'.
+  Proof.
+    unfold reg_role. destruct (negb (is_avail_admin st c)); [discriminate|].
+    destruct (negb match role_of st x with Some (s, _) => seqb s gov_st_unavailable | None => true end); [discriminate|].
+    pose proof (ext_set_role st x (gov_st_unavailable, gov_normal_weight)) as E0.
+    set (st0 := set_role st x (gov_st_unavailable, gov_normal_weight)) in *.
+    destruct (submit sem e_default st0 c gov_ev_register 0 x gov_st_unavailable None) as [[st1 i]|k] eqn:Es; [|discriminate].
+    destruct (fire gov_role_fsm gov_st_unavailable gov_ev_register gov_st_unavailable) as [s'|]; [|discriminate].
+    apply submit_ext in Es. destruct Es as [E1 _].
+    intro H. eapply ext_trans; [exact E0|]. eapply ext_trans; [exact E1|].
+    eapply ext_trans; [apply ext_set_role | eapply zero_after_ext; exact H].
+  Qed.
+
+  Lemma reg_node_ext (st : state) c x st' : reg_node sem e_default cfg_fixed st c x = Ok st' -> ext st st'.
+  Proof.
+    unfold reg_node. destruct (negb (is_avail_admin st c)); [discriminate|].
+    destruct (negb match node_of st x with Some s => seqb s gov_st_unavailable | None => true end); [discriminate|].
+    destruct (submit sem e_default st c gov_ev_register 1 x gov_st_unavailable None) as [[st1 i]|k] eqn:Es; [|discriminate].
+    apply submit_ext in Es. destruct Es as [E1 _].
+    intro H. eapply ext_trans; [exact E1|]. eapply ext_trans; [apply ext_set_node | eapply zero_after_ext; exact H].
+  Qed.
+
+  Lemma logout_node_ext (st : state) c x st' : logout_node sem e_default cfg_fixed st c x = Ok st' -> ext st st'.
+  Proof.
+    unfold logout_node. destruct (negb (is_avail_admin st c)); [discriminate|].
+    destruct (node_of st x) as [s|]; [|discriminate].
+    destruct (negb (pre_ok gov_node_pre gov_ev_logout s)); [discriminate|].
+    destruct (submit sem e_default st c gov_ev_logout 1 x s None) as [[st1 i]|k] eqn:Es; [|discriminate].
+    destruct (fire gov_node_fsm s gov_ev_logout s) as [s'|]; [|discriminate].
+    apply submit_ext in Es. destruct Es as [E1 _].
+    intro H. eapply ext_trans; [exact E1|]. eapply ext_trans; [apply ext_set_node | eapply zero_after_ext; exact H].
+  Qed.
+
+  Lemma upd_strategy_ext (st : state) c m z e st' :
+    upd_strategy E_eqb sem e_default cfg_fixed st c m z e = Ok st' -> ext st st'.
+  Proof.
+    unfold upd_strategy. destruct (negb (is_avail_admin st c)); [discriminate|].
+    destruct (2 <? m); [discriminate|].
+    destruct (match strat_of st m with Some v => v | None => (false, e_default, gov_st_available) end) as [[z0 e0] s0].
+    destruct (negb (pre_ok gov_strategy_pre gov_ev_update s0)); [discriminate|].
+    assert (forall te ee,
+      (if negb z && negb (admitted (sem e) (avail_num st)) then Fail 9
+       else match submit sem e_default st c gov_ev_update 2 (400 + m) s0 (Some (te, ee)) with
+            | Ok (st1, i) =>
+              zero_after sem e_default cfg_fixed
+                (match strat_of st1 m with
+                 | Some (z1, e1, s1) => match fire gov_strategy_fsm s1 gov_ev_update s1 with
+                                        | Some s' => set_strat st1 m (z1, e1, s') | None => st1 end
+                 | None => st1 end) i
+            | Fail _ => Fail 9 end) = Ok st' -> ext st st') as Hmain.
+    { intros te ee. destruct (negb z && negb (admitted (sem e) (avail_num st))); [discriminate|].
+      destruct (submit sem e_default st c gov_ev_update 2 (400 + m) s0 (Some (te, ee))) as [[st1 i]|k] eqn:Es; [|discriminate].
+      apply submit_ext in Es. destruct Es as [E1 _].
+      intro H. eapply ext_trans; [exact E1|]. eapply ext_trans; [|eapply zero_after_ext; exact H].
+      destruct (strat_of st1 m) as [[[z1 e1] s1]|]; [|apply ext_refl].
+      destruct (fire gov_strategy_fsm s1 gov_ev_update s1); [apply ext_set_strat | apply ext_refl]. }
+    destruct (if Bool.eqb z z0 then None else Some z) as [te|]; destruct (if E_eqb e e0 then None else Some e) as [ee|];
+      try discriminate; apply Hmain.
+  Qed.
+
+  (** ** Vote *)
+
+  Lemma alookup_in_elect (p : proposal) c w : alookup N.eqb c (h_elect (p_hdr p)) = Some w -> in_elect p c = true.
+  Proof.
+    unfold in_elect. induction (h_elect (p_hdr p)) as [|[k v] t IH]; simpl; [discriminate|].
+    destruct (c =? k) eqn:Ec; [intros _; rewrite N.eqb_sym, Ec; reflexivity|].
+    intro H. rewrite IH by exact H. apply orb_true_r.
+  Qed.
+
+  Lemma count_ballots_cons b c v l :
+    count_ballots b ((c, v) :: l) = if Bool.eqb v b then count_ballots b l + 1 else count_ballots b l.
+  Proof.
+    unfold count_ballots. simpl. destruct (Bool.eqb v b); [|reflexivity]. simpl. lia.
+  Qed.
+
+  Lemma pinv_vote (p : proposal) c ap w th :
+    p_status p = ST_PROPOSED -> alookup N.eqb c (h_elect (p_hdr p)) = Some w ->
+    existsb (fun x : N * bool => fst x =? c) (p_ballots p) = false ->
+    pinv p -> pinv (with_ballot p c ap w th).
+  Proof.
+    intros Hst Hel Hnv [a b c0 d e f]. constructor.
+    - unfold tally_ok in *. cbn [p_ballots p_hdr p_approve p_reject with_ballot].
+      apply andb_true_iff in a; destruct a as [a a6]. apply andb_true_iff in a; destruct a as [a a5].
+      apply andb_true_iff in a; destruct a as [a a4]. apply andb_true_iff in a; destruct a as [a a3].
+      apply andb_true_iff in a; destruct a as [a a2].
+      apply N.eqb_eq in a4. apply N.eqb_eq in a5.
+      apply andb_true_iff; split; [apply andb_true_iff; split; [apply andb_true_iff; split;
+        [apply andb_true_iff; split; [apply andb_true_iff; split|]|]|]|].
+      + simpl. rewrite Hnv. simpl. exact a.
+      + exact a2.
+      + simpl. apply andb_true_iff. split; [apply (alookup_in_elect p c w Hel) | exact a3].
+      + apply N.eqb_eq. rewrite count_ballots_cons. destruct ap; simpl; lia.
+      + apply N.eqb_eq. rewrite count_ballots_cons. destruct ap; simpl; lia.
+      + exact a6.
+    - unfold approved_sound. cbn [p_status with_ballot]. rewrite Hst. reflexivity.
+    - unfold special_ok in *. apply andb_true_iff in c0. destruct c0 as [c1 _].
+      apply andb_true_iff. split.
+      + unfold super_ballot in *. cbn [p_super p_ballots p_hdr with_ballot]. simpl. rewrite Hel.
+        apply Bool.eqb_prop in c1. rewrite c1. rewrite orb_comm. apply Bool.eqb_reflx.
+      + cbn [p_status with_ballot]. rewrite Hst. reflexivity.
+    - unfold manage_ok, is_open in *. cbn [p_status p_manage with_ballot]. rewrite Hst in *. exact d.
+    - intro Hx. cbn [p_status with_ballot] in Hx. rewrite Hst in Hx. discriminate.
+    - cbn [p_status with_ballot]. exact f.
+  Qed.
+
+  Lemma vote_opext (st : state) c i b st' : vote sem e_default cfg_fixed st c i b = Ok st' -> opext st st'.
+  Proof.
+    unfold vote. destruct (negb (is_avail_admin st c)); [discriminate|].
+    destruct (get_prop st i) as [p|] eqn:Hg; [|discriminate].
+    destruct (negb (p_status p =? ST_PROPOSED)) eqn:Est; [discriminate|].
+    apply negb_false_iff in Est. apply N.eqb_eq in Est.
+    destruct (alookup N.eqb c (h_elect (p_hdr p))) as [w|] eqn:Hel; [|discriminate].
+    destruct (existsb (fun x : N * bool => fst x =? c) (p_ballots p)) eqn:Hnv; [discriminate|].
+    destruct (2 <=? b); [discriminate|].
+    set (ap := b =? 1).
+    set (a' := if ap then p_approve p + 1 else p_approve p).
+    set (r' := if ap then p_reject p else p_reject p + 1).
+    destruct (threshold (sem (h_expr (p_hdr p))) a' r' (h_total (p_hdr p))) as [th|]; [|discriminate].
+    set (p1 := with_ballot p c ap w th). set (st1 := set_prop st i p1).
+    assert (get_prop st1 i = Some p1) as Hg1.
+    { unfold st1, get_prop. rewrite get_set_prop. eapply (nth_upd_nth_eq (fun _ => _)). exact Hg. }
+    (* the ballot step *)
+    assert (opext st st1) as Ev.
+    { intros [HI Hn]. split.
+      - split; [|exact Hn]. unfold st1. rewrite get_set_prop. apply Forall_upd_nth; [exact HI|].
+        intros x Hx Px. unfold get_prop in Hg. rewrite Hg in Hx. inversion Hx; subst. apply pinv_vote; auto.
+      - split; [unfold st1; rewrite get_set_prop, upd_nth_length; lia|].
+        intros j q Hq. unfold get_prop in *. unfold st1. rewrite get_set_prop.
+        destruct (Nat.eq_dec i j) as [->|Hne].
+        + rewrite Hg in Hq. inversion Hq; subst. exists p1. split; [eapply (nth_upd_nth_eq (fun _ => _)); exact Hg|].
+          constructor; [reflexivity | | exists [(c, ap)]; split; [reflexivity | simpl; lia]].
+          unfold is_open. rewrite Est. discriminate.
+        + exists q. split; [rewrite nth_upd_nth_neq by exact Hne; exact Hq | apply pev_pevb; apply pev_refl]. }
+    assert (forall s2, ext st1 s2 -> opext st s2) as Hchain.
+    { intros s2 E2 Hs. destruct (Ev Hs) as [Hs1 Sb1]. destruct (E2 Hs1) as [Hs2 Sv2]. split; [exact Hs2|].
+      destruct Sb1 as [L1 B1]. destruct Sv2 as [L2 B2]. split; [lia|].
+      intros j q Hq. destruct (B1 j q Hq) as [q1 [Hq1 P1]]. destruct (B2 j q1 Hq1) as [q2 [Hq2 P2]].
+      exists q2. split; [exact Hq2|]. destruct P1 as [h1 c1 [l [bl ll]]]. destruct P2 as [h2 b2 a2 r2 s2' c2].
+      constructor; [congruence | | exists l; split; [congruence | exact ll]].
+      intro Ho. destruct (c1 Ho) as [f1 [f2 [f3 [f4 [f5 [f6 [f7 f8]]]]]]].
+      assert (is_open q1 = false) as Ho1 by (unfold is_open in *; rewrite f1; exact Ho).
+      destruct (c2 Ho1) as [g1 [g2 [g3 g4]]]. unfold final_same. repeat split; congruence. }
+    destruct (h_special (p_hdr p) && negb (p_super p1)) eqn:Esp; [intro H; inversion H; subst; exact Ev|].
+    cbn [d_underflow cfg_fixed].
+    destruct (decide (sem (h_expr (p_hdr p))) false a' r' (h_total (p_hdr p)) (p_avail p)) eqn:Ed.
+    - intro H; inversion H; subst; exact Ev.
+    - intro H. apply Hchain.
+      eapply (conclude_good _ st1 i ST_APPROVED RS_NORMAL p1 st' Hg1); [unfold is_open, p1; cbn [p_status with_ballot]; rewrite Est; reflexivity | | exact H].
+      split; [left; reflexivity|]. split; [left; reflexivity|]. intros _.
+      unfold p1. cbn [p_hdr p_approve p_reject p_avail p_super with_ballot]. fold a' r'.
+      split; [intros _; apply decide_approve in Ed; exact Ed|].
+      split; [unfold ST_APPROVED, ST_REJECTED; intro Hx; lia|].
+      intro Hs. rewrite Hs in Esp. unfold p1 in Esp. cbn [p_super with_ballot] in Esp.
+      destruct (p_super p || (w =? gov_super_weight)); [reflexivity | discriminate].
+    - intro H. apply Hchain.
+      eapply (conclude_good _ st1 i ST_REJECTED RS_NORMAL p1 st' Hg1); [unfold is_open, p1; cbn [p_status with_ballot]; rewrite Est; reflexivity | | exact H].
+      split; [right; reflexivity|]. split; [left; reflexivity|]. intros _.
+      unfold p1. cbn [p_hdr p_approve p_reject p_avail p_super with_ballot]. fold a' r'.
+      split; [unfold ST_APPROVED, ST_REJECTED; intro Hx; lia|].
+      split; [intros _; apply decide_reject in Ed; exact Ed|].
+      intro Hs. rewrite Hs in Esp. unfold p1 in Esp. cbn [p_super with_ballot] in Esp.
+      destruct (p_super p || (w =? gov_super_weight)); [reflexivity | discriminate].
+  Qed.
+
+  (** ** Calls by manager contracts: EndObjProposal, Lock / UnLockLowPriorityProposal *)
+
+  Lemma end_obj_fold (base : state) obj l : forall s0 : state,
+    ext base s0 ->
+    ext base (fold_left (fun (s : state) i =>
+      match get_prop s i with
+      | Some p => if (h_obj (p_hdr p) =? obj) && (p_status p <? 2)
+                  then change_status (set_prop s i (with_reason p RS_CLEAR)) i ST_REJECTED else s
+      | None => s
+      end) l s0).
+  Proof.
+    induction l as [|i t IH]; intros s0 Hacc; simpl; [exact Hacc|].
+    apply IH. destruct (get_prop s0 i) as [p|] eqn:Hg; [|exact Hacc].
+    destruct ((h_obj (p_hdr p) =? obj) && (p_status p <? 2)) eqn:Ec; [|exact Hacc].
+    eapply ext_trans; [exact Hacc|]. eapply ext_close_nomanage; [exact Hg | | right; reflexivity].
+    apply andb_true_iff in Ec. destruct Ec as [_ Ec]. exact Ec.
+  Qed.
+
+  Lemma end_obj_ext (st : state) obj : ext st (end_obj st obj).
+  Proof. unfold end_obj. apply end_obj_fold. apply ext_refl. Qed.
+
+  Lemma best_paused_some (ps : list proposal) obj : forall k best i p,
+    (forall j q, best = Some (j, q) -> (j < k)%nat /\ p_status q = ST_PAUSED /\ True) ->
+    best_paused ps k obj best = Some (i, p) ->
+    p_status p = ST_PAUSED /\ ((exists q, best = Some (i, q) /\ p = q) \/ nth_error ps (i - k) = Some p /\ (k <= i)%nat).
+  Proof.
+    induction ps as [|x t IH]; intros k best i p Hb H; simpl in H.
+    - subst best. destruct (Hb i p eq_refl) as [_ [H2 _]]. split; [exact H2|]. left. exists p. split; reflexivity.
+    - match type of H with best_paused t (S k) obj ?b = _ => set (b' := b) in * end.
+      assert (forall j q, b' = Some (j, q) -> (j < S k)%nat /\ p_status q = ST_PAUSED /\ True) as Hb'.
+      { intros j q Hj. unfold b' in Hj.
+        destruct ((h_obj (p_hdr x) =? obj) && (p_status x =? ST_PAUSED)) eqn:Ec.
+        - apply andb_true_iff in Ec. destruct Ec as [_ Ec]. apply N.eqb_eq in Ec.
+          destruct best as [[j0 bp]|].
+          + destruct (prio (h_ev (p_hdr bp)) <? prio (h_ev (p_hdr x))).
+            * inversion Hj; subst. split; [lia | split; [exact Ec | exact I]].
+            * destruct (Hb j q Hj) as [A [B _]]. split; [lia | split; [exact B | exact I]].
+          + inversion Hj; subst. split; [lia | split; [exact Ec | exact I]].
+        - destruct (Hb j q Hj) as [A [B _]]. split; [lia | split; [exact B | exact I]]. }
+      destruct (IH (S k) b' i p Hb' H) as [Hp Hor]. split; [exact Hp|].
+      destruct Hor as [[q [Hq ->]]|[Hn Hk]].
+      + unfold b' in Hq.
+        destruct ((h_obj (p_hdr x) =? obj) && (p_status x =? ST_PAUSED)) eqn:Ec.
+        * destruct best as [[j0 bp]|].
+          -- destruct (prio (h_ev (p_hdr bp)) <? prio (h_ev (p_hdr x))).
+             ++ inversion Hq; subst. right. rewrite Nat.sub_diag. split; [reflexivity | lia].
+             ++ left. exists q. split; [exact Hq | reflexivity].
+          -- inversion Hq; subst. right. rewrite Nat.sub_diag. split; [reflexivity | lia].
+        * left. exists q. split; [exact Hq | reflexivity].
+      + right. split; [|lia]. replace (i - k)%nat with (S (i - S k)) by lia. simpl. exact Hn.
+  Qed.
+
+  Lemma unlock_obj_ext (st : state) obj ev st' : unlock_obj sem e_default cfg_fixed st obj ev = Ok st' -> ext st st'.
+  Proof.
+    unfold unlock_obj. destruct (best_paused (s_props st) 0 obj None) as [[i p]|] eqn:Eb; [|intro H; inversion H; apply ext_refl].
+    apply best_paused_some in Eb; [|intros j q Hx; discriminate].
+    destruct Eb as [Hp [[q [Hq _]]|[Hn _]]]; [discriminate|]. rewrite Nat.sub_0_r in Hn.
+    intro H. eapply ext_trans; [|eapply (manage_ext _ (conclude_good _)); exact H].
+    eapply ext_pause; [exact Hn | unfold is_open; rewrite Hp; reflexivity | unfold ST_PROPOSED; lia].
+  Qed.
+
+  (** ** Every transaction *)
+
+  Lemma run_opext (st : state) o st' : run E_eqb sem e_default cfg_fixed st o = Ok st' -> opext st st'.
+  Proof.
+    destruct o; simpl; intro H;
+      try (apply ext_opext;
+           first [ eapply reg_role_ext; exact H | eapply role_flow_ext; exact H | eapply reg_node_ext; exact H
+                 | eapply logout_node_ext; exact H | eapply withdraw_ext; exact H | eapply upd_strategy_ext; exact H
+                 | eapply unlock_obj_ext; exact H ]; fail);
+      try discriminate.
+    - eapply vote_opext; exact H.
+    - inversion H; subst. apply ext_opext. apply end_obj_ext.
+    - inversion H; subst. apply ext_opext. apply lock_low_ext.
+  Qed.
+
+  Lemma step_opext (st : state) o : opext st (fst (step E_eqb sem e_default cfg_fixed st o)).
+  Proof.
+    unfold step. destruct (run E_eqb sem e_default cfg_fixed st o) as [s|c] eqn:Er; simpl.
+    - eapply run_opext; exact Er.
+    - intro Hs. split; [exact Hs | apply sevb_refl].
+  Qed.
+
+  (** ** Reachable states *)
+
+  Definition step1 (st : state) (o : op) : state := fst (step E_eqb sem e_default cfg_fixed st o).
+  Definition run_ops (st : state) (os : list op) : state := fold_left step1 os st.
+
+  Inductive reach : state -> Prop :=
+  | reach_init weights strat : reach (init_state weights strat)
+  | reach_step st o : reach st -> reach (step1 st o).
+
+  Lemma nodup_keys_seq {V} (f : N -> V) (ws : list N) : forall start,
+    nodup_keys (map (fun iw : nat * N => (N.of_nat (fst iw), f (snd iw))) (combine (seq start (List.length ws)) ws)) = true /\
+    forall k, existsb (fun e : N * V => fst e =? k)
+                (map (fun iw : nat * N => (N.of_nat (fst iw), f (snd iw))) (combine (seq start (List.length ws)) ws)) = true ->
+              N.of_nat start <= k.
+  Proof.
+    induction ws as [|w t IH]; intro start; simpl; [split; [reflexivity | discriminate]|].
+    destruct (IH (S start)) as [H1 H2]. split.
+    - rewrite H1, andb_true_r. apply negb_true_iff. apply not_true_iff_false. intro Hc. apply H2 in Hc. lia.
+    - intros k Hk. apply orb_true_iff in Hk. destruct Hk as [Hk|Hk]; [apply N.eqb_eq in Hk; lia | apply H2 in Hk; lia].
+  Qed.
+
+  Lemma sinv_init weights strat : sinv (init_state weights strat : state).
+  Proof.
+    split; [constructor|]. unfold init_state. cbn [s_roles].
+    apply (proj1 (nodup_keys_seq (fun w => (gov_st_available, w)) weights 0)).
+  Qed.
+
+  Lemma reach_sinv st : reach st -> sinv st.
+  Proof.
+    induction 1 as [w s|st o Hr IH]; [apply sinv_init|]. unfold step1. apply (step_opext st o IH).
+  Qed.
+
+  (** * C15: once approved or rejected, nothing of a proposal changes, whatever happens next *)
+  Lemma final_step (st : state) o i p :
+    sinv st -> get_prop st i = Some p -> is_open p = false ->
+    exists q, get_prop (step1 st o) i = Some q /\ final_same p q /\ p_hdr q = p_hdr p.
+  Proof.
+    intros Hs Hg Ho. destruct (step_opext st o Hs) as [_ [_ Hb]]. destruct (Hb i p Hg) as [q [Hq [h c _]]].
+    exists q. split; [exact Hq | split; [apply c; exact Ho | exact h]].
+  Qed.
+
+  Lemma final_same_open (p q : proposal) : final_same p q -> is_open q = is_open p.
+  Proof. intros [H _]. unfold is_open. rewrite H. reflexivity. Qed.
+
+  Lemma final_same_trans (p q r : proposal) : final_same p q -> final_same q r -> final_same p r.
+  Proof. unfold final_same. intros [a1 [a2 [a3 [a4 [a5 [a6 [a7 a8]]]]]]] [b1 [b2 [b3 [b4 [b5 [b6 [b7 b8]]]]]]]. repeat split; congruence. Qed.
+
+  Theorem final_forever (st : state) os i p :
+    reach st -> get_prop st i = Some p -> is_open p = false ->
+    exists q, get_prop (run_ops st os) i = Some q /\ final_same p q /\ p_hdr q = p_hdr p.
+  Proof.
+    revert st p. induction os as [|o t IH]; intros st p Hr Hg Ho; simpl.
+    - exists p. split; [exact Hg|]. split; [unfold final_same; repeat split; reflexivity | reflexivity].
+    - destruct (final_step st o i p (reach_sinv st Hr) Hg Ho) as [q [Hq [Hf Hh]]].
+      destruct (IH (step1 st o) q (reach_step st o Hr) Hq) as [r [Hr' [Hf' Hh']]].
+      { rewrite (final_same_open p q Hf). exact Ho. }
+      exists r. split; [exact Hr'|]. split; [eapply final_same_trans; eauto | congruence].
+  Qed.
+
+  (** Manage runs exactly once for a proposal concluded by vote / electorate change / zero
+      permission / withdrawal, never for an open one, never again afterwards (by [final_forever],
+      [p_manage] is part of [final_same]) *)
+  Theorem manage_once (st : state) p :
+    reach st -> In p (s_props st) ->
+    (is_open p = true -> p_manage p = []) /\
+    (is_open p = false ->
+       ((p_reason p = RS_PRIORITY \/ p_reason p = RS_CLEAR) -> p_manage p = []) /\
+       (~ (p_reason p = RS_PRIORITY \/ p_reason p = RS_CLEAR) -> p_manage p = [p_status p])).
+  Proof.
+    intros Hr Hin. destruct (reach_sinv st Hr) as [HI _]. rewrite Forall_forall in HI. destruct (HI p Hin) as [_ _ _ d _ _].
+    unfold manage_ok in d. split.
+    - intro Ho. rewrite Ho in d. exact d.
+    - intro Ho. rewrite Ho in d. split; intro Hx.
+      + rewrite d. destruct Hx as [Hx|Hx]; rewrite Hx; reflexivity.
+      + rewrite d. destruct ((p_reason p =? RS_PRIORITY) || (p_reason p =? RS_CLEAR)) eqn:Ec; [|reflexivity].
+        exfalso. apply Hx. apply orb_true_iff in Ec. destruct Ec as [Ec|Ec]; apply N.eqb_eq in Ec; auto.
+  Qed.
+
+  (** * C15: tallies are counts of distinct electors' ballots *)
+  Lemma nodup_keys_NoDup {V} (l : list (N * V)) : nodup_keys l = true -> NoDup (map fst l).
+  Proof.
+    induction l as [|[k v] t IH]; simpl; intro H; [constructor|].
+    apply andb_true_iff in H. destruct H as [H1 H2]. constructor; [|apply IH; exact H2].
+    intro Hin. apply in_map_iff in Hin. destruct Hin as [[k' v'] [Hk Hin]]. simpl in Hk. subst k'.
+    apply negb_true_iff in H1. apply not_true_iff_false in H1. apply H1.
+    apply existsb_exists. exists (k, v'). split; [exact Hin | simpl; apply N.eqb_refl].
+  Qed.
+
+  Definition tally_P (p : proposal) : Prop :=
+    NoDup (map fst (p_ballots p)) /\ NoDup (map fst (h_elect (p_hdr p))) /\
+    (forall v, In v (map fst (p_ballots p)) -> In v (map fst (h_elect (p_hdr p)))) /\
+    p_approve p = count_ballots true (p_ballots p) /\
+    p_reject p = count_ballots false (p_ballots p) /\
+    h_total (p_hdr p) = N.of_nat (List.length (h_elect (p_hdr p))).
+
+  Lemma tally_ok_P (p : proposal) : tally_ok p = true -> tally_P p.
+  Proof.
+    unfold tally_ok, tally_P. intro a.
+    apply andb_true_iff in a; destruct a as [a a6]. apply andb_true_iff in a; destruct a as [a a5].
+    apply andb_true_iff in a; destruct a as [a a4]. apply andb_true_iff in a; destruct a as [a a3].
+    apply andb_true_iff in a; destruct a as [a a2].
+    split; [apply nodup_keys_NoDup; exact a|]. split; [apply nodup_keys_NoDup; exact a2|].
+    split; [|split; [apply N.eqb_eq; exact a4 | split; [apply N.eqb_eq; exact a5 | apply N.eqb_eq; exact a6]]].
+    intros v Hv. apply in_map_iff in Hv. destruct Hv as [[v' b] [Hv Hin]]. simpl in Hv. subst v'.
+    rewrite forallb_forall in a3. specialize (a3 _ Hin). unfold in_elect in a3. apply existsb_exists in a3.
+    destruct a3 as [[e w] [He Hk]]. simpl in Hk. apply N.eqb_eq in Hk. subst e.
+    apply in_map_iff. exists (v, w). split; [reflexivity | exact He].
+  Qed.
+
+  Theorem one_vote (st : state) p : reach st -> In p (s_props st) -> tally_P p.
+  Proof.
+    intros Hr Hin. destruct (reach_sinv st Hr) as [HI _]. rewrite Forall_forall in HI. apply tally_ok_P. apply (HI p Hin).
+  Qed.
+
+  (** at most one ballot is recorded per transaction, and nothing recorded is ever lost *)
+  Theorem one_ballot_per_tx (st : state) o i p :
+    reach st -> get_prop st i = Some p ->
+    exists q l, get_prop (step1 st o) i = Some q /\ p_ballots q = l ++ p_ballots p /\ (List.length l <= 1)%nat.
+  Proof.
+    intros Hr Hg. destruct (step_opext st o (reach_sinv st Hr)) as [_ [_ Hb]]. destruct (Hb i p Hg) as [q [Hq [_ _ [l [Hl Hn]]]]].
+    exists q, l. split; [exact Hq | split; [exact Hl | exact Hn]].
+  Qed.
+
+  (** * C15: APPROVED by the tally => the recorded expression holds of the tallies *)
+  Theorem approved_sound_thm (st : state) p :
+    reach st -> In p (s_props st) -> p_status p = ST_APPROVED -> by_tally p = true ->
+    sem (h_expr (p_hdr p)) (count_ballots true (p_ballots p)) (count_ballots false (p_ballots p))
+        (N.of_nat (List.length (h_elect (p_hdr p)))) = true /\ tally_P p.
+  Proof.
+    intros Hr Hin Hs Hb. pose proof (one_vote st p Hr Hin) as Ht.
+    destruct (reach_sinv st Hr) as [HI _]. rewrite Forall_forall in HI. destruct (HI p Hin) as [_ b _ _ _ _].
+    split; [|exact Ht]. destruct Ht as [_ [_ [_ [Ha [Hrj Htot]]]]]. rewrite <- Ha, <- Hrj, <- Htot.
+    unfold approved_sound in b. rewrite Hs, Hb in b. simpl in b. exact b.
+  Qed.
+
+  (** * C15: REJECTED by the tally => approval was unreachable for the electors still counted
+        ([p_cavail] = AvailableElectorateNum at that moment), for monotone expressions *)
+  Theorem rejected_unreachable_thm (st : state) p :
+    reach st -> In p (s_props st) -> p_status p = ST_REJECTED -> by_tally p = true ->
+    mono (sem (h_expr (p_hdr p))) ->
+    forall m, p_approve p + p_reject p + m <= p_cavail p ->
+              ~ reachable (sem (h_expr (p_hdr p))) (p_approve p) (p_reject p) (h_total (p_hdr p)) m.
+  Proof.
+    intros Hr Hin Hs Hb Hm m Hle.
+    destruct (reach_sinv st Hr) as [HI _]. rewrite Forall_forall in HI. destruct (HI p Hin) as [_ _ _ _ e _].
+    destruct (e Hs Hb) as [E1 E2]. eapply reject_unreachable; [exact Hm | | exact Hle].
+    apply decide_reject. split; [exact E1 | exact E2].
+  Qed.
+
+  (** * C15: a special proposal concluded by the tally has the ballot of a super administrator *)
+  Theorem special_needs_super_thm (st : state) p :
+    reach st -> In p (s_props st) -> is_open p = false -> by_tally p = true -> h_special (p_hdr p) = true ->
+    p_super p = true /\
+    exists v b w, In (v, b) (p_ballots p) /\ alookup N.eqb v (h_elect (p_hdr p)) = Some w /\ w = gov_super_weight.
+  Proof.
+    intros Hr Hin Ho Hb Hsp.
+    destruct (reach_sinv st Hr) as [HI _]. rewrite Forall_forall in HI. destruct (HI p Hin) as [_ _ c _ _ _].
+    unfold special_ok in c. apply andb_true_iff in c. destruct c as [c1 c2].
+    assert (p_super p = true) as Hsu.
+    { unfold is_open in Ho. replace (2 <=? p_status p) with true in c2 by lia. rewrite Hb, Hsp in c2. simpl in c2. exact c2. }
+    split; [exact Hsu|]. apply Bool.eqb_prop in c1. rewrite Hsu in c1. symmetry in c1.
+    unfold super_ballot in c1. apply existsb_exists in c1. destruct c1 as [[v b] [Hv Hw]]. simpl in Hw.
+    destruct (alookup N.eqb v (h_elect (p_hdr p))) as [w|] eqn:El; [|discriminate].
+    exists v, b, w. split; [exact Hv | split; [exact El | apply N.eqb_eq; exact Hw]].
+  Qed.
+
+  (** * C15: refusals (for EVERY defect configuration): a vote by an outsider or an unavailable
+        admin, on a finished or paused or unknown proposal, with a garbage ballot, by a
+        non-elector, or a second vote is refused and changes nothing *)
+  Lemma alookup_none_in_elect (p : proposal) c : alookup N.eqb c (h_elect (p_hdr p)) = None -> in_elect p c = false.
+  Proof.
+    unfold in_elect. induction (h_elect (p_hdr p)) as [|[k v] t IH]; simpl; [reflexivity|].
+    destruct (c =? k) eqn:Ec; [discriminate|]. intro H. rewrite N.eqb_sym, Ec. simpl. apply IH. exact H.
+  Qed.
+
+  Theorem refusals_thm cfg (st : state) c i b :
+    vote_must_fail st c i b = true ->
+    exists rc, rc <> 0 /\ step E_eqb sem e_default cfg st (OVote c i b) = (st, rc).
+  Proof.
+    unfold vote_must_fail, step, run, vote. intro H.
+    destruct (negb (is_avail_admin st c)); [exists 2; split; [discriminate | reflexivity]|].
+    simpl in H. destruct (get_prop st i) as [p|]; [|exists 3; split; [discriminate | reflexivity]].
+    destruct (negb (p_status p =? ST_PROPOSED)); [exists 4; split; [discriminate | reflexivity]|].
+    destruct (alookup N.eqb c (h_elect (p_hdr p))) as [w|] eqn:El; [|exists 7; split; [discriminate | reflexivity]].
+    rewrite (alookup_in_elect p c w El) in H. simpl in H. unfold voted in H.
+    destruct (existsb (fun x : N * bool => fst x =? c) (p_ballots p)); [exists 5; split; [discriminate | reflexivity]|].
+    simpl in H. rewrite H. exists 6. split; [discriminate | reflexivity].
+  Qed.
+
+  (** every failed transaction leaves the whole state as it was *)
+  Theorem failed_tx_frame cfg (st : state) o rc st' :
+    step E_eqb sem e_default cfg st o = (st', rc) -> rc <> 0 -> st' = st.
+  Proof.
+    unfold step. destruct (run E_eqb sem e_default cfg st o); intros H Hrc; inversion H; subst; [congruence | reflexivity].
+  Qed.
+
+  (** direct calls by accounts to the methods reserved to manager contracts, and with the
+      repaired ZeroPermission also that one, are refused *)
+  Theorem guarded_refused (st : state) c i :
+    step E_eqb sem e_default cfg_fixed st (OZero c i) = (st, 1) /\
+    step E_eqb sem e_default cfg_fixed st (OGuarded c) = (st, 1).
+  Proof. split; reflexivity. Qed.
+
+  (** * Bookkeeping of the available electorate (partial): established at submission and
+        preserved by a vote; its preservation across role changes is checked on every trace by
+        clause 10 of the judge, not proved *)
+  Lemma filter_length_le {A} (f : A -> bool) l : (List.length (filter f l) <= List.length l)%nat.
+  Proof. induction l as [|x t IH]; simpl; [lia|]. destruct (f x); simpl; lia. Qed.
+
+  Theorem avail_ok_new (st : state) (p : proposal) :
+    p_ballots p = [] -> p_avail p = N.of_nat (List.length (h_elect (p_hdr p))) -> avail_ok st p = true.
+  Proof.
+    intros Hb Ha. unfold avail_ok, avail_nonvoters. rewrite Hb, Ha. simpl.
+    pose proof (filter_length_le (fun e : N * N => is_avail_admin st (fst e) && negb (voted p (fst e))) (h_elect (p_hdr p))). lia.
+  Qed.
+
+  Lemma filter_strict {A} (f g : A -> bool) l x :
+    In x l -> f x = true -> g x = false -> (forall y, g y = true -> f y = true) ->
+    (List.length (filter g l) < List.length (filter f l))%nat.
+  Proof.
+    intros Hin Hf Hg Hsub. induction l as [|y t IH]; [contradiction|]. simpl.
+    assert (List.length (filter g t) <= List.length (filter f t))%nat as Hle.
+    { clear -Hsub. induction t as [|z t IH]; simpl; [lia|]. destruct (g z) eqn:Eg; [rewrite (Hsub z Eg); simpl; lia|].
+      destruct (f z); simpl; lia. }
+    destruct Hin as [->|Hin].
+    - rewrite Hf, Hg. simpl. lia.
+    - specialize (IH Hin). destruct (g y) eqn:Eg; [rewrite (Hsub y Eg); simpl; lia|]. destruct (f y); simpl; lia.
+  Qed.
+
+  Theorem avail_ok_vote (st : state) (p : proposal) c ap w th :
+    avail_ok st p = true -> is_avail_admin st c = true ->
+    alookup N.eqb c (h_elect (p_hdr p)) = Some w -> voted p c = false ->
+    avail_ok st (with_ballot p c ap w th) = true.
+  Proof.
+    intros Ha Hc Hel Hnv. unfold avail_ok, avail_nonvoters in *. cbn [p_ballots p_hdr p_avail with_ballot]. simpl List.length.
+    assert (exists e, In e (h_elect (p_hdr p)) /\ fst e = c) as [e [He Hfe]].
+    { clear -Hel. induction (h_elect (p_hdr p)) as [|[k v] t IH]; simpl in *; [discriminate|].
+      destruct (c =? k) eqn:Ec; [apply N.eqb_eq in Ec; subst; exists (k, v); split; [left; reflexivity | reflexivity]|].
+      destruct (IH Hel) as [e [H1 H2]]. exists e. split; [right; exact H1 | exact H2]. }
+    pose proof (filter_strict
+      (fun e : N * N => is_avail_admin st (fst e) && negb (voted p (fst e)))
+      (fun e : N * N => is_avail_admin st (fst e) && negb (voted (with_ballot p c ap w th) (fst e)))
+      (h_elect (p_hdr p)) e He) as Hlt.
+    assert (forall x, voted (with_ballot p c ap w th) x = (c =? x) || voted p x) as Hv.
+    { intro x. unfold voted. cbn [p_ballots with_ballot]. simpl. reflexivity. }
+    assert ((List.length (filter (fun e0 : N * N => is_avail_admin st (fst e0) && negb (voted (with_ballot p c ap w th) (fst e0))) (h_elect (p_hdr p))) <
+             List.length (filter (fun e0 : N * N => is_avail_admin st (fst e0) && negb (voted p (fst e0))) (h_elect (p_hdr p))))%nat) as Hl.
+    { apply Hlt.
+      - rewrite Hfe, Hc, Hnv. reflexivity.
+      - rewrite Hv, Hfe, N.eqb_refl. simpl. apply andb_false_r.
+      - intros y Hy. rewrite Hv in Hy. apply andb_true_iff in Hy. destruct Hy as [Hy1 Hy2].
+        apply negb_true_iff in Hy2. apply orb_false_iff in Hy2. destruct Hy2 as [_ Hy2]. rewrite Hy1, Hy2. reflexivity. }
+    lia.
+  Qed.
 End GovProofs.
